@@ -1,8 +1,13 @@
 import FormulaicVerif.Proofs.C05Sparse
 import FormulaicVerif.Proofs.C05Entry
+import FormulaicVerif.Proofs.C05Registry
+import FormulaicVerif.Proofs.C05Dispatch
+import FormulaicVerif.Proofs.C05Compose
 import FormulaicVerif.Gen.KindTable
 import FormulaicVerif.Gen.Names
 import FormulaicVerif.Gen.Plumbing
+import FormulaicVerif.Gen.Registry
+import FormulaicVerif.Model.Wrapper
 /-! # C05 — Output types, entry points and materializers agree with one another
 
 Property theorems only; helper lemmas are in `Proofs/C05Sparse.lean` and `Proofs/C05Entry.lean`.
@@ -124,6 +129,298 @@ example :
   · simp only [List.mem_singleton] at hf
     subst hf; rfl
 
+/-! ## 4. the materializer registry and its dispatch -/
+section registry
+open FormulaicVerif.Model.Registry FormulaicVerif.Proofs.C05R
+
+/-- C05.4a  After ANY history of class creations, the list `REGISTERED_INPUTS[t]` is exactly the
+classes that declare input type `t` (own truthy `REGISTER_NAME`, `t` among their own
+`REGISTER_INPUTS`), sorted by descending precedence, classes of equal precedence in creation order;
+and `REGISTERED_NAMES[n]` is the LAST created class that registered under `n`. -/
+theorem registration_closed_form (cs : List MatClass) (t n : String) :
+    (registerAll {} cs).inputsFor t = sortDesc (declaring t cs) ∧
+    Desc ((registerAll {} cs).inputsFor t) ∧
+    (∀ c, c ∈ (registerAll {} cs).inputsFor t ↔ c ∈ declaring t cs) ∧
+    (∀ p : Rat, ((registerAll {} cs).inputsFor t).filter (fun c => c.precedence = p)
+        = (declaring t cs).filter (fun c => c.precedence = p)) ∧
+    dictGet? (registerAll {} cs).names n = lastThat (namedAs n) cs := by
+  rw [registerAll_inputsFor]
+  exact ⟨rfl, sortDesc_desc _, fun c => mem_sortDesc, fun p => sortDesc_stable _ p, registerAll_names cs n⟩
+
+/-- a history with a replaced name, an inherited (hence unregistered) name, a precedence tie and a
+duplicate input type: the closed form is what the fold computes -/
+example :
+    let a : MatClass := { cid := 0, name := some "m", ownInputs := some ["t", "t"], precedence := 100 }
+    let b : MatClass := { cid := 1, name := some "m", ownName := false, ownInputs := some ["t"] }
+    let c : MatClass := { cid := 2, name := some "k", ownInputs := some ["t"], precedence := 150 }
+    let d : MatClass := { cid := 3, name := some "m", ownInputs := some ["u", "t"], precedence := 100 }
+    ((registerAll {} [a, b, c, d]).inputsFor "t").map (·.cid) = [2, 0, 0, 3] ∧
+    ((registerAll {} [a, b, c, d]).names.map (fun p => (p.1, p.2.cid))) = [("m", 3), ("k", 2)] := by
+  decide +kernel
+
+/-- C05.4b  `for_materializer`: a name gives the class registered (last) under it and is otherwise
+`FormulaMaterializerNotFoundError`; an instance gives its class; a materializer class is returned as
+it is; anything else is `FormulaMaterializerInvalidError`. -/
+theorem for_materializer_spec (cs : List MatClass) (n : String) (c : MatClass) :
+    forMaterializer (registerAll {} cs) (.name n)
+      = (match lastThat (namedAs n) cs with
+          | some k => .ok k
+          | none => .error (.unknownName n)) ∧
+    forMaterializer (registerAll {} cs) (.inst c) = .ok c ∧
+    forMaterializer (registerAll {} cs) (.cls c) = .ok c ∧
+    forMaterializer (registerAll {} cs) .other = .error .invalid := by
+  refine ⟨?_, rfl, rfl, rfl⟩
+  simp only [forMaterializer, registerAll_names]
+  cases lastThat (namedAs n) cs <;> rfl
+
+/-- C05.4c  `for_data` returns the FIRST class, among those explicitly registered for the input
+type (in precedence order) followed by the registered classes whose `SUPPORTS_INPUT` accepts the
+data (in precedence order), that offers the requested output; it raises exactly when there is none
+(`noInput` when nothing accepts the data at all). Any registry, any data, any set iteration order. -/
+theorem for_data_first_candidate (r : Registry) (setOrder : List MatClass) (d : Data) (output : Option String) :
+    forData r setOrder d output =
+      match (candidates r setOrder d).find? (offers output) with
+      | some c => .ok c
+      | none => .error (failure r setOrder d) :=
+  forData_eq r setOrder d output
+
+/-- C05.4d  `for_data` returns a materializer that SUPPORTS THE INPUT AND THE REQUESTED OUTPUT
+WHENEVER ONE EXISTS, and only such a one: success ⟺ some accepting class offers the output; the
+class returned accepts the data and offers the output. -/
+theorem for_data_sound_complete (r : Registry) (setOrder : List MatClass) (d : Data) (output : Option String) :
+    (∀ c, forData r setOrder d output = .ok c → Accepts r setOrder d c ∧ offers output c = true) ∧
+    ((∃ c, forData r setOrder d output = .ok c) ↔ ∃ c, Accepts r setOrder d c ∧ offers output c = true) := by
+  have sound : ∀ c, forData r setOrder d output = .ok c → Accepts r setOrder d c ∧ offers output c = true := by
+    intro c h
+    have hf := forData_ok h
+    exact ⟨mem_candidates.mp (List.mem_of_find?_eq_some hf), List.find?_some hf⟩
+  refine ⟨sound, ⟨fun ⟨c, h⟩ => ⟨c, sound c h⟩, ?_⟩⟩
+  rintro ⟨c, hacc, hoff⟩
+  cases hf : (candidates r setOrder d).find? (offers output) with
+  | some x => exact ⟨x, forData_of_find hf⟩
+  | none => exact absurd hoff (List.find?_eq_none.mp hf c (mem_candidates.mpr hacc))
+
+/-- C05.4e  Priority: explicit registrations come first, then precedence. If ANY class explicitly
+registered for the input type offers the output, the class returned is explicitly registered and no
+such class has a higher precedence; otherwise no accepting class that offers the output has a
+higher precedence than the one returned. -/
+theorem for_data_priority (r : Registry) (setOrder : List MatClass) (d : Data) (output : Option String) (c : MatClass)
+    (h : forData r setOrder d output = .ok c) :
+    ((∃ k ∈ registeredFor r d, offers output k = true) →
+      c ∈ registeredFor r d ∧ ∀ k ∈ registeredFor r d, offers output k = true → k.precedence ≤ c.precedence) ∧
+    ((¬ ∃ k ∈ registeredFor r d, offers output k = true) →
+      ∀ k, Accepts r setOrder d k → offers output k = true → k.precedence ≤ c.precedence) := by
+  have hf := forData_ok h
+  simp only [candidates] at hf
+  rcases find?_append_cases hf with hA | ⟨hA, hB⟩
+  · refine ⟨fun _ => ⟨List.mem_of_find?_eq_some hA, find?_desc (registeredFor_desc r d) hA⟩, ?_⟩
+    intro hno
+    exact absurd ⟨c, List.mem_of_find?_eq_some hA, List.find?_some hA⟩ hno
+  · refine ⟨?_, ?_⟩
+    · rintro ⟨k, hk, hok⟩
+      exact absurd hok (List.find?_eq_none.mp hA k hk)
+    · intro _ k hacc hok
+      have hk : k ∈ registeredFor r d ++ fallbackFor setOrder d := mem_candidates.mpr hacc
+      rcases List.mem_append.mp hk with hk | hk
+      · exact absurd hok (List.find?_eq_none.mp hA k hk)
+      · exact find?_desc (fallbackFor_desc setOrder d) hB k hk hok
+
+/-- C05.4f  The iteration order of `set(REGISTERED_NAMES.values())` (fixed by object addresses in
+CPython) does not matter: with another order `for_data` succeeds as well, with a class of the same
+precedence — the same class whenever it is explicitly registered for the input type. -/
+theorem for_data_set_order_irrelevant (r : Registry) (so₁ so₂ : List MatClass) (d : Data) (output : Option String)
+    (c₁ : MatClass) (hso : ∀ c, c ∈ so₁ ↔ c ∈ so₂) (h : forData r so₁ d output = .ok c₁) :
+    ∃ c₂, forData r so₂ d output = .ok c₂ ∧ c₂.precedence = c₁.precedence ∧ (c₁ ∈ registeredFor r d → c₂ = c₁) :=
+  forData_order hso h
+
+/-- the registry of the live package: the GENERATED classes registered in their generated order -/
+def liveRegistry : Registry := registerAll {} Gen.materializerClasses
+
+/-- C05.4g  The registration model reproduces the live registry: folding `__register_implementation__`
+over the generated classes gives the `REGISTERED_NAMES` and `REGISTERED_INPUTS` dumped from the live
+package (keys in dict order, lists in list order). Re-decided on every run. -/
+theorem live_registry_reproduced :
+    liveRegistry.names.map (fun p => (p.1, p.2.cid)) = Gen.registeredNames ∧
+    liveRegistry.inputs.map (fun p => (p.1, p.2.map (·.cid))) = Gen.registeredInputs := by
+  decide +kernel
+
+/-- C05.4h  Every input type a shipped materializer DECLARES is dispatched: for each probe object
+(one per kind of data, GENERATED) whose type a class lists among its `REGISTER_INPUTS` — under any
+name that resolves to that type — `for_data` succeeds for `output=None` and for every output that
+class offers, whatever the set iteration order. (Before the repair this failed for `dict` and for
+main-namespace `narwhals.DataFrame`.) -/
+theorem declared_inputs_dispatched (so : List MatClass) (hso : ∀ c, c ∈ so ↔ c ∈ liveRegistry.classes) :
+    ∀ p ∈ Gen.dataProbes, ∀ k ∈ Gen.materializerClasses, k.cid ∈ p.declaredBy →
+      ∀ o ∈ none :: k.outputs.map some, ∃ c, forData liveRegistry so p.data o = .ok c ∧ offers o c = true := by
+  have base : ∀ p ∈ Gen.dataProbes, ∀ k ∈ Gen.materializerClasses, k.cid ∈ p.declaredBy →
+      ∀ o ∈ none :: k.outputs.map some,
+        (match forData liveRegistry liveRegistry.classes p.data o with | .ok _ => true | .error _ => false) = true := by
+    decide +kernel
+  intro p hp k hk hd o ho
+  have hb := base p hp k hk hd o ho
+  cases hf : forData liveRegistry liveRegistry.classes p.data o with
+  | error e => simp [hf] at hb
+  | ok c₁ =>
+    obtain ⟨c₂, h2, _, _⟩ := forData_order (fun c => (hso c).symm) hf
+    exact ⟨c₂, h2, ((for_data_sound_complete liveRegistry so p.data o).1 c₂ h2).2⟩
+
+/-- the hypothesis on the set order holds for the dict order of `REGISTERED_NAMES` (and for every permutation of it) -/
+example : ∀ c, c ∈ liveRegistry.classes ↔ c ∈ liveRegistry.classes := fun _ => Iff.rfl
+example : ∀ c, c ∈ liveRegistry.classes.reverse ↔ c ∈ liveRegistry.classes := fun _ => List.mem_reverse
+
+/-- non-vacuity of `declared_inputs_dispatched`: the table has declared probes (dict → pandas, a
+narwhals frame → narwhals) and undeclared ones -/
+example : (Gen.dataProbes.filter (fun p => !p.declaredBy.isEmpty)).length ≥ 2 ∧
+    (Gen.dataProbes.filter (fun p => p.declaredBy.isEmpty)).length ≥ 1 := by decide
+
+end registry
+
+/-! ## 5. the `ModelMatrix` wrapper -/
+section wrapper
+open FormulaicVerif.Model.Wrapper
+
+/-- C05.6a  The spec (hence the column names of a numpy / sparse matrix) and the numbers survive the
+wrapper's own operations: after ANY sequence of `copy.copy`, `copy.deepcopy` and pickle round trips
+the matrix reads the same numbers and the attached spec the same names — provided the library
+objects inside copy faithfully (hypotheses on the parameters); a shallow copy carries the very same
+spec object. For every output type at once (`α` is the wrapped object's type). -/
+theorem wrapper_keeps_spec_and_numbers {α σ V N : Type} (k : Copiers α σ) (values : α → V) (names : σ → N)
+    (hc : ∀ a, values (k.copyM a) = values a) (hd : ∀ a, values (k.deepM a) = values a)
+    (hp : ∀ a, values (k.pickleM a) = values a)
+    (hds : ∀ s, names (k.deepS s) = names s) (hps : ∀ s, names (k.pickleS s) = names s)
+    (m : MM α σ) (ops : List Op) :
+    values (m.applyAll k ops).wrapped = values m.wrapped ∧
+    (m.applyAll k ops).spec.map names = m.spec.map names ∧
+    ((∀ op ∈ ops, op = .copy) → (m.applyAll k ops).spec = m.spec) := by
+  induction ops generalizing m with
+  | nil => exact ⟨rfl, rfl, fun _ => rfl⟩
+  | cons op ops ih =>
+    have step : values (m.apply k op).wrapped = values m.wrapped ∧ (m.apply k op).spec.map names = m.spec.map names := by
+      cases op
+      · exact ⟨hc _, rfl⟩
+      · refine ⟨hd _, ?_⟩
+        simp only [MM.apply, Option.map_map]
+        cases m.spec <;> simp [hds]
+      · refine ⟨hp _, ?_⟩
+        simp only [MM.apply, Option.map_map]
+        cases m.spec <;> simp [hps]
+    have := ih (m.apply k op)
+    simp only [MM.applyAll, List.foldl_cons] at this ⊢
+    refine ⟨this.1.trans step.1, this.2.1.trans step.2, ?_⟩
+    intro hall
+    have hop : op = .copy := hall op (by simp)
+    subst hop
+    exact this.2.2 (fun o ho => hall o (List.mem_cons_of_mem _ ho))
+
+/-- the hypotheses are satisfiable with copiers that do change the objects (a copy is another object) -/
+example : ∃ (k : Copiers (Nat × List Int) (Nat × List String)),
+    (∀ a, (k.copyM a).2 = a.2) ∧ (∀ s, (k.deepS s).2 = s.2) ∧ k.copyM (0, [1]) ≠ (0, [1]) :=
+  ⟨⟨fun a => (a.1 + 1, a.2), fun a => (a.1 + 1, a.2), fun a => (a.1 + 1, a.2), fun s => (s.1 + 1, s.2), fun s => (s.1 + 1, s.2)⟩,
+    fun _ => rfl, fun _ => rfl, by decide⟩
+
+/-- C05.6b  The structured containers: `ModelMatrices` accepts exactly `ModelMatrix` leaves and
+`ModelSpecs` exactly `ModelSpec` leaves (`TypeError` otherwise, whatever the other leaves are); and
+`ModelMatrices.model_spec` is the `ModelSpecs` of the leaves' specs under the same keys in the same
+order (a `TypeError` exactly when some leaf carries no spec). -/
+theorem containers_spec (α σ : Type) (items : List (String × Item α σ)) (ms : List (String × MM α σ)) :
+    (mkModelMatrices items = .ok ms ↔ items = ms.map (fun p => (p.1, Item.matrix p.2))) ∧
+    (∀ specs, modelSpecOf ms = .ok specs ↔ ms.map (fun p => (p.1, p.2.spec)) = specs.map (fun p => (p.1, some p.2))) := by
+  constructor
+  · induction items generalizing ms with
+    | nil => cases ms <;> simp [mkModelMatrices]
+    | cons it items ih =>
+      obtain ⟨k, x⟩ := it
+      cases x with
+      | matrix m =>
+        simp only [mkModelMatrices]
+        cases hr : mkModelMatrices items with
+        | error e =>
+          simp only [false_iff, reduceCtorEq]
+          intro h
+          cases ms with
+          | nil => simp at h
+          | cons p ms' =>
+            simp only [List.map_cons, List.cons.injEq] at h
+            have := (ih ms').mpr h.2
+            rw [hr] at this
+            cases this
+        | ok r' =>
+          simp only [Except.ok.injEq]
+          constructor
+          · intro h; subst h
+            simp only [List.map_cons, List.cons.injEq, true_and]
+            exact (ih r').mp hr
+          · intro h
+            cases ms with
+            | nil => simp at h
+            | cons p ms' =>
+              simp only [List.map_cons, List.cons.injEq, Prod.mk.injEq, Item.matrix.injEq] at h
+              have := (ih ms').mpr h.2
+              rw [hr] at this
+              cases this
+              obtain ⟨⟨h1, h2⟩, _⟩ := h
+              cases p
+              simp_all
+      | spec s0 =>
+        simp only [mkModelMatrices, false_iff, reduceCtorEq]
+        intro h
+        cases ms with
+        | nil => simp at h
+        | cons p ms' => simp at h
+      | other =>
+        simp only [mkModelMatrices, false_iff, reduceCtorEq]
+        intro h
+        cases ms with
+        | nil => simp at h
+        | cons p ms' => simp at h
+  · induction ms with
+    | nil =>
+      intro specs
+      cases specs <;> simp [modelSpecOf]
+    | cons p ms ih =>
+      intro specs
+      obtain ⟨k, m⟩ := p
+      simp only [modelSpecOf]
+      cases hs : m.spec with
+      | none =>
+        simp only [false_iff, reduceCtorEq]
+        intro h
+        cases specs with
+        | nil => simp at h
+        | cons q specs' => simp [hs] at h
+      | some s0 =>
+        simp only
+        cases hr : modelSpecOf ms with
+        | error e =>
+          simp only [false_iff, reduceCtorEq]
+          intro h
+          cases specs with
+          | nil => simp at h
+          | cons q specs' =>
+            simp only [List.map_cons, List.cons.injEq] at h
+            have := (ih specs').mpr h.2
+            rw [hr] at this
+            cases this
+        | ok r' =>
+          simp only [Except.ok.injEq]
+          constructor
+          · intro h; subst h
+            simp only [List.map_cons, List.cons.injEq, hs, true_and]
+            exact (ih r').mp hr
+          · intro h
+            cases specs with
+            | nil => simp at h
+            | cons q specs' =>
+              simp only [List.map_cons, List.cons.injEq, Prod.mk.injEq, hs, Option.some.injEq] at h
+              have := (ih specs').mpr h.2
+              rw [hr] at this
+              cases this
+              obtain ⟨⟨h1, h2⟩, _⟩ := h
+              cases q
+              simp_all
+
+end wrapper
+
 /-! ## 2. entry points -/
 section entry
 open FormulaicVerif.Model.EntryPoints FormulaicVerif.Proofs.C05E
@@ -131,10 +428,23 @@ open FormulaicVerif.Model.EntryPoints FormulaicVerif.Proofs.C05E
 /-- the static environment of the live package: GENERATED registry, NAAction values and the two
 `drop_rows` forwarding flags probed on the live code -/
 def liveEnv : Env :=
-  { registry := Gen.materializerOutputs, naActions := Gen.naActions,
+  { registry := Dispatch.envRegistry liveRegistry, naActions := Gen.naActions, clusterBys := Gen.clusterBys,
     fwdOverride := Gen.forwardsDropOnOverride, fwdJoint := Gen.forwardsDropOnJoint }
 
 theorem liveEnv_ok : EnvOK liveEnv := ⟨by decide, by decide⟩
+
+/-- C05.2f  The constants the plumbing model spells out by hand are the live ones (GENERATED on every
+run): the layers of a materializer's context, outermost first, and the defaults of the configuration
+fields of `ModelSpec`; and the registry view used here offers, name by name, the generated
+`REGISTER_NAME ↦ REGISTER_OUTPUTS` table. -/
+theorem model_constants_are_live :
+    Gen.contextLayers = ["data", "context", "transforms"] ∧
+    (({ formula := 0 } : MSpec).materializer = Gen.defaultMaterializer ∧ ({ formula := 0 } : MSpec).params = none ∧
+     ({ formula := 0 } : MSpec).efr = Gen.defaultEnsureFullRank ∧ ({ formula := 0 } : MSpec).na = Gen.defaultNaAction ∧
+     ({ formula := 0 } : MSpec).output = Gen.defaultOutput ∧ ({ formula := 0 } : MSpec).cluster = Gen.defaultClusterBy) ∧
+    (∀ p ∈ Gen.materializerOutputs, EntryPoints.forMaterializer liveEnv p.1 = .ok p) ∧
+    liveEnv.registry.length = Gen.materializerOutputs.length := by
+  refine ⟨by decide, by decide, by decide +kernel, by decide +kernel⟩
 
 /-- every successful entry point is, up to `drop_rows`, the model-spec method without overrides -/
 private theorem via_spec (env : Env) (henv : EnvOK env) (c : Call) (hv : ValidSpec env c.spec) (e : EntryPoints.Entry)
@@ -269,6 +579,33 @@ theorem drop_rows_forwarding (env : Env) (henv : EnvOK env) (c : Call) (hv : Val
           subst hq
           exact (mkReq_plumbed hm).1.2.2.2
 
+/-- C05.2e  ONE statement over the inductive type of entry points (top-level function, formula
+method, model-spec / model-specs method without and with overrides, materializer method): when the
+code forwards the caller's `drop_rows` on the override path and on the joint path (the two flags,
+probed on the live code on every run), any two entry points that both produce requests produce
+IDENTICAL ones — class, data, context, layers, constructor params, every prepared leaf, the
+simplification flag and the very `drop_rows` object. -/
+theorem entry_points_agree_exactly (env : Env) (henv : EnvOK env) (c : Call) (hv : ValidSpec env c.spec)
+    (hfo : env.fwdOverride = true) (hfj : env.fwdJoint = true)
+    (e₁ e₂ : EntryPoints.Entry) (r₁ r₂ : List Request)
+    (h₁ : requestVia env e₁ c = .ok r₁) (h₂ : requestVia env e₂ c = .ok r₂) : r₁ = r₂ := by
+  obtain ⟨s₁, hs₁, _⟩ := via_spec env henv c hv e₁ r₁ h₁
+  rw [specMethod_eq] at hs₁
+  cases hp : fromSpec env c.spec c.overrides with
+  | error e => simp [hp] at hs₁
+  | ok p =>
+    have hd : ∀ e, dropOf env e c p = c.dropRows := by
+      intro e
+      cases e <;> cases p <;> simp [dropOf, dropAfter, hfo, hfj]
+    have d₁ := drop_rows_forwarding env henv c hv e₁ p hp r₁ h₁
+    have d₂ := drop_rows_forwarding env henv c hv e₂ p hp r₂ h₂
+    exact eq_of_eraseAll c.dropRows (entry_points_agree env henv c hv e₁ e₂ r₁ r₂ h₁ h₂)
+      (fun q hq => (d₁ q hq).trans (hd e₁)) (fun q hq => (d₂ q hq).trans (hd e₂))
+
+/-- the live environment satisfies the two flag hypotheses exactly when the generated probes say so -/
+example (h1 : Gen.forwardsDropOnOverride = true) (h2 : Gen.forwardsDropOnJoint = true) :
+    liveEnv.fwdOverride = true ∧ liveEnv.fwdJoint = true := ⟨h1, h2⟩
+
 /-- C05.2d  Same context layering through every entry point: the materializer is built on the
 caller's data with the caller's context mapping, and its lookup layers are data, then context, then
 the transforms. -/
@@ -292,13 +629,253 @@ theorem context_layering (env : Env) (henv : EnvOK env) (c : Call) (hv : ValidSp
     have e3 : q.layers = q'.layers := by have := congrArg Request.layers hqq; simpa [eraseDrop] using this.symm
     exact ⟨e1.trans this.1, e2.trans this.2.1, e3.trans this.2.2.1⟩
 
+/-! ### the plumbing on top of the registry -/
+section dispatch
+open FormulaicVerif.Model.Dispatch FormulaicVerif.Proofs.C05D FormulaicVerif.Proofs.C05R
+
+/-- C05.5a  What the plumbing model reads of the registry is the registry: looking a nominated name
+up in `envRegistry r` is `for_materializer(name)` on `r`, for every registry and every name. -/
+theorem registry_view_faithful (env : Env) (r : Registry.Registry) (h : env.registry = envRegistry r) (n : String) :
+    EntryPoints.forMaterializer env n
+      = (match Registry.forMaterializer r (.name n) with
+          | .ok cl => .ok (n, cl.outputs)
+          | .error _ => .error .notFound) := by
+  rw [forMaterializer_envRegistry env r h n]
+  simp only [Registry.forMaterializer]
+  cases Registry.dictGet? r.names n <;> rfl
+
+/-- C05.5b  WHICH CLASS SERVES A REQUEST. For every registry, every data (described by what
+`for_data` reads of it), every call and EVERY entry point: each request that reaches the
+materialisation proper is served by a class registered under the recorded name; every prepared
+leaf records that name and an output that class OFFERS; and the class was either looked up under a
+nominated name or is `for_data(data)`'s choice — a class that accepts the data
+(`for_data_sound_complete`, `for_data_priority` say which one). -/
+theorem dispatched_class_serves_request (env : Env) (henv : EnvOK env) (r : Registry.Registry)
+    (so : List Registry.MatClass) (hreg : env.registry = envRegistry r)
+    (spec : SpecArg) (dataId : Nat) (d : Registry.Data) (ctx dr : Option Nat) (ov : List Attr)
+    (hv : ValidSpec env spec) (e : EntryPoints.Entry) (rs : List Request)
+    (h : requestVia env e (callFor r so spec dataId d ctx dr ov) = .ok rs) :
+    ∀ q ∈ rs, ∃ cl,
+      Registry.forMaterializer r (.name q.matName) = .ok cl ∧
+      (∀ l ∈ q.specs, l.2.materializer = some q.matName ∧ ∃ o, l.2.output = some o ∧ o ∈ cl.outputs) ∧
+      ((∃ n, EntryPoints.forMaterializer env n = .ok (q.matName, cl.outputs)) ∧
+       ((∃ m, resolve env (callFor r so spec dataId d ctx dr ov) (some m) = .ok (q.matName, cl.outputs)) ∨
+        (∃ k, Registry.forData r so d none = .ok k ∧ k.name = some q.matName ∧ Accepts r so d k))) := by
+  obtain ⟨rs', hs, he⟩ := via_spec env henv _ hv e rs h
+  rw [specMethod_eq] at hs
+  cases hf : fromSpec env (callFor r so spec dataId d ctx dr ov).spec (callFor r so spec dataId d ctx dr ov).overrides with
+  | error err => simp [hf] at hs
+  | ok p =>
+    simp only [hf] at hs
+    intro q hq
+    have hq' : eraseDrop q ∈ eraseAll rs := List.mem_map_of_mem hq
+    rw [he] at hq'
+    obtain ⟨q', hq'm, hqq⟩ := List.mem_map.mp hq'
+    obtain ⟨m, rr, hres, hserved⟩ := chosen_of_eraseDrop hqq.symm (afterPrepared_chosen hs q' hq'm)
+    -- the pair found carries a registered name
+    have hname : ∃ n, EntryPoints.forMaterializer env n = .ok rr := by
+      cases m with
+      | some n => exact ⟨n, hres⟩
+      | none =>
+        simp only [resolve, EntryPoints.forData] at hres
+        cases hdm : (callFor r so spec dataId d ctx dr ov).dataMat with
+        | none => simp [hdm] at hres
+        | some n => simp only [hdm] at hres; exact ⟨n, hres⟩
+    obtain ⟨n, hn⟩ := hname
+    have hfst := forMaterializer_fst hn
+    rw [forMaterializer_envRegistry env r hreg n] at hn
+    cases hd : Registry.dictGet? r.names n with
+    | none => simp [hd] at hn
+    | some cl =>
+      simp only [hd, Except.ok.injEq] at hn
+      have hm1 : q.matName = n := hserved.1.trans hfst
+      have hrr : rr = (q.matName, cl.outputs) := by rw [← hn, hm1]
+      refine ⟨cl, ?_, ?_, ?_, ?_⟩
+      · simp only [Registry.forMaterializer, hm1, hd]
+      · intro l hl
+        obtain ⟨h1, o, h2, h3⟩ := hserved.2 l hl
+        refine ⟨h1.trans (by rw [hserved.1]), o, h2, ?_⟩
+        rw [← hn] at h3; exact h3
+      · refine ⟨n, ?_⟩
+        rw [forMaterializer_envRegistry env r hreg n, hd, hm1]
+      · cases m with
+        | some m0 => exact Or.inl ⟨m0, by rw [← hrr]; exact hres⟩
+        | none =>
+          obtain ⟨k, hk1, hk2, hk3⟩ := resolve_none_callFor hres
+          exact Or.inr ⟨k, hk1, by rw [hk2, hserved.1], hk3⟩
+
+/-- C05.5c  Every request that reaches the materialisation proper — through any entry point — is
+internally consistent: its leaves agree on the output type, the null policy and the rank setting
+(their factors are evaluated once, under one pooled spec; the code raises `RuntimeError` otherwise,
+and so does the model: `ModelSpecs` built by hand from disagreeing leaves fail through every entry
+point that materialises them jointly). -/
+theorem requests_are_consistent (env : Env) (henv : EnvOK env) (c : Call) (hv : ValidSpec env c.spec)
+    (e : EntryPoints.Entry) (rs : List Request) (h : requestVia env e c = .ok rs) :
+    ∀ q ∈ rs, consistent q.specs = true := by
+  obtain ⟨rs', hs, he⟩ := via_spec env henv c hv e rs h
+  rw [specMethod_eq] at hs
+  cases hf : fromSpec env c.spec c.overrides with
+  | error err => simp [hf] at hs
+  | ok p =>
+    simp only [hf] at hs
+    intro q hq
+    have hq' : eraseDrop q ∈ eraseAll rs := List.mem_map_of_mem hq
+    rw [he] at hq'
+    obtain ⟨q', hq'm, hqq⟩ := List.mem_map.mp hq'
+    have e2 : q.specs = q'.specs := by
+      have := congrArg Request.specs hqq
+      simpa [eraseDrop] using this.symm
+    rw [e2]
+    exact afterPrepared_consistent hs q' hq'm
+
+/-- disagreeing leaves: jointly (both leave the materializer open) a `RuntimeError` from every entry
+point; leaf by leaf (two different materializers nominated) two requests, each consistent -/
+example :
+    let a : MSpec := { formula := 1, output := some "numpy" }
+    let b : MSpec := { formula := 2, output := some "sparse" }
+    let call (x y : MSpec) : Call := { spec := .mspecs [("lhs", x), ("rhs", y)], data := 0, dataMat := some "pandas",
+                                       context := none, dropRows := none, overrides := [] }
+    (∀ e : EntryPoints.Entry, requestVia liveEnv e (call a b) = .error .runtime) ∧
+    (requestVia liveEnv .specMethod (call { a with materializer := some "pandas" } { b with materializer := some "narwhals" })).map
+        (fun rs => rs.map (fun q => (q.matName, q.specs.length))) = .ok [("pandas", 1), ("narwhals", 1)] := by
+  refine ⟨?_, by decide +kernel⟩
+  intro e; cases e <;> decide +kernel
+
+/-- non-vacuity and the live instance: a dict handed to the top-level function is dispatched to the
+pandas materializer by the registry model over the GENERATED classes, a main-namespace narwhals frame
+to the narwhals materializer, and a list to none (`FormulaMaterializerNotFoundError` from every entry point
+that has to pick a class) -/
+example :
+    let env : Env := liveEnv
+    let call (m q : String) (sup : List Nat) : Call :=
+      callFor liveRegistry liveRegistry.classes (.formula 1) 0 { module := m, qualname := q, supportedBy := sup } none none []
+    (requestVia env .sugar (call "builtins" "dict" [])).map (fun rs => rs.map (·.matName)) = .ok ["pandas"] ∧
+    (requestVia env .specMethod (call "narwhals.dataframe" "DataFrame" [0])).map (fun rs => rs.map (·.matName)) = .ok ["narwhals"] ∧
+    (requestVia env .formulaMethod (call "builtins" "list" [])).map (fun rs => rs.map (·.matName)) = .error .notFound := by
+  decide +kernel
+
+end dispatch
+
+/-! ### the property in one statement -/
+section compose
+open FormulaicVerif.Spec.OutputAgreement FormulaicVerif.Proofs.C05C
+
+/-- whatever output type is asked for, a leaf's numbers are those of the dense pipeline of its formula -/
+private theorem valuesOf_dense (content : Nat → Content)
+    (hok : ∀ f, ∀ t ∈ (content f).terms, ∀ s ∈ t.factors, srcOK (content f).nrows s) (ms : MSpec) :
+    valuesOf content ms = densePipeline (content ms.formula).terms := by
+  simp only [valuesOf]
+  split
+  · exact sparse_refines_dense _ _ (hok ms.formula)
+  · rfl
+
+/-- C05.0  THE PROPERTY ON THE MODEL, AS ONE STATEMENT. For the same formula / spec, data, context
+and options, asking for ANY two output types (`output=o₁`, `output=o₂`: pandas, numpy, sparse — or any
+other the materializer offers) through ANY two entry points (top-level function, formula method,
+model-spec / model-specs method with or without overrides, materializer method): whenever both
+calls produce matrices, they produce — request by request, part by part — the same column names in
+the same order and the same numbers. For every environment (registry, enum values, forwarding
+flags), every call record, every content of the formulas (any terms, factors, levels, scales, row
+counts with one value per row). Composition of `entry_points_agree` (plumbing), the fact that the
+requested output type only changes the `output` field of the prepared leaves, and
+`sparse_refines_dense` (column pipelines). -/
+theorem same_numbers_any_output_any_entry (env : Env) (henv : EnvOK env) (c : Call) (hv : ValidSpec env c.spec)
+    (content : Nat → Content)
+    (hok : ∀ f, ∀ t ∈ (content f).terms, ∀ s ∈ t.factors, srcOK (content f).nrows s)
+    (o₁ o₂ : String) (e₁ e₂ : EntryPoints.Entry)
+    (v₁ v₂ : List (List (String × Except MErr (List String × List Col))))
+    (h₁ : valuesVia env content e₁ (withOutput c o₁) = .ok v₁)
+    (h₂ : valuesVia env content e₂ (withOutput c o₂) = .ok v₂) : v₁ = v₂ := by
+  -- the numbers of an entry point are those of the model-spec method on the prepared spec
+  have key : ∀ (o : String) (e : EntryPoints.Entry) (v : List (List (String × Except MErr (List String × List Col)))),
+      valuesVia env content e (withOutput c o) = .ok v →
+      ∃ p s, fromSpec env c.spec c.overrides = .ok p ∧
+        afterPrepared env (withOutput c o) (Prepared.setOut o p) c.dropRows = .ok s ∧ v = valuesOfRequests content s := by
+    intro o e v h
+    simp only [valuesVia] at h
+    cases hr : requestVia env e (withOutput c o) with
+    | error err => simp [hr, Except.map] at h
+    | ok r =>
+      simp only [hr, Except.map, Except.ok.injEq] at h
+      obtain ⟨s, hs, he⟩ := via_spec env henv (withOutput c o) hv e r hr
+      rw [specMethod_eq] at hs
+      have hfo : fromSpec env (withOutput c o).spec (withOutput c o).overrides
+          = (fromSpec env c.spec c.overrides).map (Prepared.setOut o) := fromSpec_output env c.spec c.overrides o
+      rw [hfo] at hs
+      cases hp : fromSpec env c.spec c.overrides with
+      | error err => simp [hp, Except.map] at hs
+      | ok p =>
+        simp only [hp, Except.map] at hs
+        exact ⟨p, s, rfl, hs, by rw [← h]; exact values_eraseAll he⟩
+  obtain ⟨p₁, s₁, hp₁, ha₁, rfl⟩ := key o₁ e₁ v₁ h₁
+  obtain ⟨p₂, s₂, hp₂, ha₂, rfl⟩ := key o₂ e₂ v₂ h₂
+  rw [hp₁] at hp₂
+  cases hp₂
+  have hc : SameData (withOutput c o₁) (withOutput c o₂) := ⟨rfl, rfl, rfl⟩
+  refine values_sameButOut ?_ (afterPrepared_setOut hc ha₁ ha₂)
+  intro ms ms' hms
+  rw [valuesOf_dense content hok, valuesOf_dense content hok]
+  have : ms.formula = ms'.formula := by
+    have := congrArg MSpec.formula hms
+    simpa [eraseOutMS] using this
+  rw [this]
+
+private def exContent : Nat → Content := fun f =>
+  if f = 2 then ⟨3, [⟨2, [.cat "A" [some "u", none, some "v"] ["u", "v"] true, .num "x" [3, 0, 5]]⟩, ⟨1, [.num "x" [3, 0, 5]]⟩]⟩
+  else ⟨3, [⟨1, [.num "y" [1, 2, 4]]⟩]⟩
+private def exCall : Call :=
+  { spec := .sformula [("lhs", 1), ("rhs", 2)], data := 7, dataMat := some "pandas",
+    context := some 3, dropRows := none, overrides := [.materializer (.name "narwhals")] }
+private def exFlat (x : Except EntryPoints.Err (List (List (String × Except MErr (List String × List Col))))) :
+    Option (List (String × Except MErr (List String × List Col))) := x.toOption.map List.flatten
+/-- part keys with their column names (`none`: the call or a part failed) -/
+private def exNames (x : Except EntryPoints.Err (List (List (String × Except MErr (List String × List Col))))) :
+    Option (List (String × List String)) :=
+  (exFlat x).bind (fun ls => ls.mapM (fun l => l.2.toOption.map (fun r => (l.1, r.1))))
+/-- the numbers, part by part, column by column -/
+private def exNumbers (x : Except EntryPoints.Err (List (List (String × Except MErr (List String × List Col))))) :
+    Option (List (List (List Rat))) :=
+  (exFlat x).bind (fun ls => ls.mapM (fun l => l.2.toOption.map (fun r => r.2)))
+
+/-- the content of the example satisfies the hypothesis of `same_numbers_any_output_any_entry` -/
+example : ∀ f, ∀ t ∈ (exContent f).terms, ∀ s ∈ t.factors, srcOK (exContent f).nrows s := by
+  intro f t ht s hs
+  have hn : (exContent f).nrows = 3 := by simp only [exContent]; split <;> rfl
+  rw [hn]
+  by_cases hf : f = 2
+  · simp only [exContent, hf, if_true, List.mem_cons, List.mem_singleton, List.not_mem_nil, or_false] at ht
+    rcases ht with rfl | rfl
+    · simp only [List.mem_cons, List.mem_singleton, List.not_mem_nil, or_false] at hs
+      rcases hs with rfl | rfl
+      · exact ⟨rfl, by decide⟩
+      · rfl
+    · simp only [List.mem_singleton] at hs
+      subst hs; rfl
+  · simp only [exContent, hf, if_false, List.mem_singleton] at ht
+    subst ht
+    simp only [List.mem_singleton] at hs
+    subst hs; rfl
+
+/-- non-vacuity: a two-part formula whose right-hand side holds an interaction of a reduced
+categorical factor with a numeric one; sparse output through the top-level function and pandas
+output through the materializer method both succeed (one joint request, two parts) and give the
+same names and numbers -/
+example :
+    exNames (valuesVia liveEnv exContent .sugar (withOutput exCall "sparse")) = some [("lhs", ["y"]), ("rhs", ["A[T.v]:x", "x"])] ∧
+    exNumbers (valuesVia liveEnv exContent .sugar (withOutput exCall "sparse")) = some [[[1, 2, 4]], [[0, 0, 10], [3, 0, 5]]] ∧
+    exNames (valuesVia liveEnv exContent .materializer (withOutput exCall "pandas")) = some [("lhs", ["y"]), ("rhs", ["A[T.v]:x", "x"])] ∧
+    exNumbers (valuesVia liveEnv exContent .materializer (withOutput exCall "pandas")) = some [[[1, 2, 4]], [[0, 0, 10], [3, 0, 5]]] := by
+  decide +kernel
+
+end compose
+
 /-- non-vacuity: against the live registry, a structured formula with overrides goes through all
 five entry points, every one yields one joint request on the narwhals materializer, and the caller's
 `drop_rows` reaches the materializer method (and the joint path only if the live code forwards it) -/
 example :
     let c : Call := { spec := .sformula [("lhs", 1), ("rhs", 2)], data := 7, dataMat := some "pandas",
                       context := some 3, dropRows := some 9,
-                      overrides := [.materializer (some "narwhals"), .output (some "numpy")] }
+                      overrides := [.materializer (.name "narwhals"), .output (some "numpy")] }
     ValidSpec liveEnv c.spec ∧
     (∀ e : EntryPoints.Entry, (requestVia liveEnv e c).map (fun rs => rs.map (fun r => (r.matName, r.specs.length, r.simplify)))
         = .ok [("narwhals", 2, false)]) ∧
